@@ -359,10 +359,26 @@ CLAIMED["C03"] = dict(
          "(printed in rules_c03.py).",
     ref="3 C03 (as built: 10.6)")
 
+CLAIMED["C12"] = dict(
+    category="other",
+    technique="abstract interpretation of the decomposition wrappers in a domain of matrix words (symbolic unitary "
+              "factors from the Eigen solvers taken as axioms, permutation matrices, diagonal matrices diag(f(x))): "
+              "interprocedural over the typed AST of every instantiation the models call; word normalisation by "
+              "cancellation of inverse pairs; scalar identities by sign case analysis",
+    text="Decides the structural clause of C12 only: given Eigen's documented solver contracts (JacobiSVD: A = U S V^H, "
+         "S >= 0 descending; SelfAdjointEigenSolver: A = Z W Z^H, W ascending) the post-processing in gm2_linalg.hpp -- "
+         "reversal, permutation by a sorted index vector, transposition in place, (z p)^H, the phase matrix for negative "
+         "eigenvalues, abs -- delivers, for every input matrix, factors whose documented product m = u^T diag(s) v / "
+         "u^T diag(s) u / z^dagger diag(w) z reduces identically to the input, that are products of unitary factors, with "
+         "non-negative values where documented and in the documented order (ascending, |w| for the hermitian routine), for "
+         "each of the instantiations called by the MSSM and THDM classes; and the models use only these routines.",
+    note=TRUST + "NOT decided: that Eigen's iterative/closed-form solvers meet their contracts in floating point "
+         "(accuracy, exactly degenerate, rank-deficient, hierarchical matrices), and the error-bound outputs -- these are "
+         "numerical and out of reach of a sound static argument here. The complex-symmetric Takagi variant (matrix square "
+         "root) is not instantiated by the models and is not analysed.",
+    ref="10.6")
+
 NOT_APPLICABLE = {
-    "C12": "factorisation/unitarity/ordering contracts of the matrix decompositions for all inputs are "
-           "floating-point properties of Eigen's iterative solvers; no sound static argument in reach "
-           "(DESIGN.md section 5)",
 }
 PENDING = "check not built yet (work in progress; see DESIGN.md section 7)"
 
